@@ -7,7 +7,10 @@ type with any `add`, any order relation on scores, any sorting routine that retu
 permutation (Go's `slices.SortFunc` is unstable), any stored document, any select and sort list.
 
 Where the documented behaviour holds only under a hypothesis, the hypothesis is stated and a witness
-shows that it cannot be dropped (`…_witness`): those witnesses are the findings of notes/C06.md.
+shows that it cannot be dropped (`…_witness`).  Three such hypotheses of the pinned tree (two or more
+sub-queries for the rank order; no select path through a scalar; one `reflect.Kind` per sort key) were
+defects; the repository repairs removed them and the model follows the repaired code:
+`C06_rank_order`, `C06_select` / `C06_select_total`, `C06_cmp_numeric` carry no such hypothesis.
 -/
 import SemaModel.C06.Lemmas
 namespace Sema.C06
@@ -15,109 +18,110 @@ open Sema
 
 /-! ### merge -/
 
-/-- `C06_merge`.  For a composite query with two or more sub-queries (or none), whose sub-results
-are well formed (ranked ids are in the sub-result's id set):
+/-- `C06_merge`.  For a composite query with ANY number of sub-queries (none, exactly one, many) whose
+sub-results are well formed (ranked ids are in the sub-result's id set; each sub-query names a point
+at most once):
 
 * the id set is the union (`_or`) / intersection (`_and`) of the sub-sets;
 * the ranked part names each point once, and names exactly the points of the id set that some
   sub-query ranked;
 * each ranked point carries `c₁ + c₂ + … + cₙ`, its contributions in sub-query order;
-* the ranked part is ordered by hybrid score, highest first. -/
+* with two or more sub-queries the ranked part is ordered by hybrid score, highest first (a single
+  sub-query is handed on as it came, `C06_merge_single`; `Shard.SearchPoints` orders the final list
+  whatever the number of sub-queries: `C06_rank_order`).
+
+The first three clauses re-establish the hypotheses, so the statement composes over query trees of any
+depth. -/
 theorem C06_merge {S : Type} (add : S → S → S) (le : S → S → Prop)
     (sorter : List (Res S) → List (Res S))
     (hperm : ∀ l, (sorter l).Perm l) (hsorted : ∀ l, (sorter l).Pairwise (fun a b => le b.hybrid a.hybrid))
-    (isOr : Bool) (subs : List (SubResult S)) (hlen : subs.length ≠ 1)
-    (hwf : ∀ s ∈ subs, ∀ r ∈ s.res, r.id ∈ s.set) :
+    (isOr : Bool) (subs : List (SubResult S))
+    (hwf : ∀ s ∈ subs, ∀ r ∈ s.res, r.id ∈ s.set) (hnd : ∀ s ∈ subs, (s.res.map (·.id)).Nodup) :
     let out := searchParallel add sorter isOr subs
     let all := (subs.map (·.res)).flatten
     (∀ id, id ∈ out.set ↔ if isOr then ∃ s ∈ subs, id ∈ s.set else subs ≠ [] ∧ ∀ s ∈ subs, id ∈ s.set) ∧
     (out.res.map (·.id)).Nodup ∧
     (∀ id, id ∈ out.res.map (·.id) ↔ id ∈ out.set ∧ id ∈ all.map (·.id)) ∧
     (∀ r ∈ out.res, some r.hybrid = sumLeft add (contribs all r.id)) ∧
-    out.res.Pairwise (fun a b => le b.hybrid a.hybrid) := by
-  intro out all
-  -- the shortcut is not taken
-  have hout : out = ⟨if isOr then unionAll (subs.map (·.set)) else interAll (subs.map (·.set)),
-      sorter ((if isOr then all else all.filter (fun r => decide (r.id ∈
-        (if isOr then unionAll (subs.map (·.set)) else interAll (subs.map (·.set)))))).foldl (mergeStep add) [])⟩ := by
-    show searchParallel add sorter isOr subs = _
-    unfold searchParallel
-    cases subs with
-    | nil => rfl
-    | cons a rest =>
-      cases rest with
-      | nil => simp at hlen
-      | cons b rest2 => rfl
-  have hset : ∀ id, id ∈ out.set ↔ if isOr then ∃ s ∈ subs, id ∈ s.set else subs ≠ [] ∧ ∀ s ∈ subs, id ∈ s.set := by
-    intro id
-    rw [hout]
-    cases isOr
-    · simp only [Bool.false_eq_true, if_false, mem_interAll, ne_eq, List.map_eq_nil_iff, List.mem_map,
-        forall_exists_index, and_imp, forall_apply_eq_imp_iff₂]
-    · simp only [if_true, mem_unionAll, List.mem_map]
-      constructor
-      · rintro ⟨_, ⟨s, hs, rfl⟩, hm⟩; exact ⟨s, hs, hm⟩
-      · rintro ⟨s, hs, hm⟩; exact ⟨_, ⟨s, hs, rfl⟩, hm⟩
-  have hallset : isOr = true → ∀ id, id ∈ all.map (·.id) → id ∈ out.set := by
-    intro hor id hid
-    rw [hset, hor]
-    simp only [if_true]
-    simp only [all, List.mem_map, List.mem_flatten] at hid
-    obtain ⟨r, ⟨l, ⟨s, hs, rfl⟩, hr⟩, rfl⟩ := hid
-    exact ⟨s, hs, hwf s hs r hr⟩
-  generalize hk : (if isOr then all else all.filter (fun r => decide (r.id ∈
-        (if isOr then unionAll (subs.map (·.set)) else interAll (subs.map (·.set)))))) = kept at hout
-  have hkept_ids : ∀ id, id ∈ kept.map (·.id) ↔ id ∈ out.set ∧ id ∈ all.map (·.id) := by
-    intro id
-    cases hor : isOr
-    · subst hk; rw [hout]; simp only [hor, Bool.false_eq_true, if_false, List.mem_map, List.mem_filter, decide_eq_true_eq]
-      constructor
-      · rintro ⟨r, ⟨hr, hm⟩, rfl⟩; exact ⟨hm, r, hr, rfl⟩
-      · rintro ⟨hm, r, hr, rfl⟩; exact ⟨r, ⟨hr, hm⟩, rfl⟩
-    · subst hk; simp only [hor, if_true]
-      exact ⟨fun h => ⟨hallset hor id h, h⟩, fun h => h.2⟩
-  have hcontrib : ∀ id, id ∈ out.set → contribs kept id = contribs all id := by
-    intro id hid
-    cases hor : isOr
-    · subst hk; simp only [hor, Bool.false_eq_true, if_false]
-      rw [contribs_filter]
-      rw [hout] at hid; simp only [hor, Bool.false_eq_true, if_false] at hid
-      simp [hid]
-    · subst hk; simp [hor]
-  obtain ⟨hnd, hmem⟩ := ids_foldl add kept [] (by simp)
-  have hres : out.res = sorter (kept.foldl (mergeStep add) []) := by rw [hout]
-  have hp := hperm (kept.foldl (mergeStep add) [])
-  refine ⟨hset, ?_, ?_, ?_, ?_⟩
-  · rw [hres]; exact ((hp.map _).nodup_iff).mpr hnd
-  · intro id
-    rw [hres, ((hp.map (·.id)).mem_iff), hmem]
-    simp only [List.map_nil, List.not_mem_nil, false_or]
-    exact hkept_ids id
-  · intro r hr
-    rw [hres] at hr
-    have hr' := hp.mem_iff.mp hr
-    have hin : r.id ∈ out.set := by
-      have : r.id ∈ kept.map (·.id) := by
-        have := (hmem r.id).mp (List.mem_map.mpr ⟨r, hr', rfl⟩)
-        simpa using this
-      exact ((hkept_ids r.id).mp this).1
-    rw [← hybridOf_of_mem hnd hr', hybridOf_merge, hcontrib r.id hin]
-  · rw [hres]; exact hsorted _
+    (subs.length ≠ 1 → out.res.Pairwise (fun a b => le b.hybrid a.hybrid)) :=
+  merge_any add le sorter hperm hsorted isOr subs hwf hnd
 
 /-- a single sub-query is passed through untouched -/
 theorem C06_merge_single {S : Type} (add : S → S → S) (sorter : List (Res S) → List (Res S)) (isOr : Bool)
     (one : SubResult S) : searchParallel add sorter isOr [one] = one := rfl
 
-/-- **the hypothesis `subs.length ≠ 1` is needed for the order clause**: a single ranking sub-query
-whose weight is negative comes back in its own order (best score first), which is the lowest hybrid
-score first — whatever sorting routine `searchParallel` uses. -/
-theorem C06_single_sub_witness :
-    ∃ leaf : SubResult Int, ∀ sorter : List (Res Int) → List (Res Int),
-      ¬ (searchParallel (· + ·) sorter true [leaf]).res.Pairwise (fun a b => b.hybrid ≤ a.hybrid) := by
-  refine ⟨⟨[1, 2], [⟨1, -2⟩, ⟨2, -1⟩]⟩, ?_⟩
-  intro sorter
-  rw [C06_merge_single]
-  simp
+/-- `C06_rank_order`.  Whatever the index search returned — a plain ranking query, a composite with
+ONE sub-query, with many, any weights (negative ones included), any nesting — a request without
+explicit sort keys comes back with the ranked rows first, highest hybrid score first, and the rows
+matched only by filters after them.  (`searchParallel` still passes a single sub-query through
+unsorted, `C06_merge_single`; `Shard.SearchPoints` orders what it gets with a stable sort.)
+No hypothesis on the number of sub-queries or on the sub-result. -/
+theorem C06_rank_order {S : Type} (le : S → S → Prop) (docOf : Id → Doc)
+    (rankSorter : List (Res S) → List (Res S))
+    (hsorted : ∀ l, (rankSorter l).Pairwise (fun a b => le b.hybrid a.hybrid))
+    (sorter : List (Row S) → List (Row S)) (repaired : Bool) (r : SubResult S) (rq : Request)
+    (hs : rq.sort = []) (p : List (Row S))
+    (h : searchPoints docOf rankSorter sorter repaired r rq = .rows p) :
+    p.Pairwise (fun a b => rankRel le a.hybrid b.hybrid) := by
+  unfold searchPoints at h
+  cases hfull : fullRows docOf rankSorter sorter r rq with
+  | error e => simp [hfull] at h
+  | ok rows =>
+    have hrows : rows.Pairwise (fun a b => rankRel le a.hybrid b.hybrid) :=
+      fullRows_rank_pairwise le docOf rankSorter hsorted sorter r rq hs rows hfull
+    simp only [hfull] at h
+    have hsub : p.Sublist rows := by
+      cases repaired
+      · simp only [Bool.false_eq_true, if_false] at h
+        cases hp : pagePinned rows rq.off rq.lim with
+        | error e => simp [hp] at h
+        | ok q =>
+          simp only [hp, Outcome.rows.injEq] at h; subst h
+          exact goSlice_sublist _ _ _ _ hp
+      · simp only [if_true] at h
+        cases hp : pageRepaired rows rq.off rq.lim with
+        | error e => simp [hp] at h
+        | ok q =>
+          simp only [hp, Outcome.rows.injEq] at h; subst h
+          exact goSlice_sublist _ _ _ _ hp
+    exact List.Pairwise.sublist hsub hrows
+
+/-- the sort in `SearchPoints` is stable: it does not move anything when the index search returned
+its results in order already (weights ≥ 0, merged results).  Such a sorter exists: insertion sort. -/
+theorem C06_rank_sorter_exists (key : Int → Int) :
+    let c := fun (a b : Res Int) => cmpInt (-(key a.hybrid)) (-(key b.hybrid))
+    (∀ l, (isort c l).Perm l) ∧ (∀ l, (isort c l).Pairwise (fun a b => key b.hybrid ≤ key a.hybrid)) ∧
+    (∀ l, l.Pairwise (fun a b => key b.hybrid ≤ key a.hybrid) → isort c l = l) := by
+  intro c
+  refine ⟨fun l => isort_perm _ l, fun l => ?_, fun l hl => ?_⟩
+  · exact (isort_sorted (tpc_of_key (fun r : Res Int => -(key r.hybrid))) l).imp (by
+      intro a b hab
+      have := (cmpInt_le (-(key a.hybrid)) (-(key b.hybrid))).mp hab
+      omega)
+  · apply isort_id_of_sorted
+    exact hl.imp (by
+      intro a b hab
+      exact (cmpInt_le (-(key a.hybrid)) (-(key b.hybrid))).mpr (by omega))
+
+/-- ids and hybrid scores of an answer -/
+def outcomeRows {S : Type} : Outcome S → Option (List (Id × Option S))
+  | .rows p => some (p.map (fun x => (x.id, x.hybrid)))
+  | _ => none
+
+set_option maxRecDepth 8192 in
+/-- the witness of the former finding `rank-order-single-subquery-negative-weight`: `_or` with one
+ranking sub-query of negative weight.  `searchParallel` passes it through lowest hybrid first, for
+every sorter it might use; the request as a whole now comes back highest first. -/
+theorem C06_single_sub_repaired :
+    let leaf : SubResult Int := ⟨[1, 2], [⟨1, -2⟩, ⟨2, -1⟩]⟩
+    (∀ s1 : List (Res Int) → List (Res Int),
+      ¬ (searchParallel (· + ·) s1 true [leaf]).res.Pairwise (fun a b => b.hybrid ≤ a.hybrid)) ∧
+    (∀ s1 : List (Res Int) → List (Res Int),
+      outcomeRows (searchPoints (fun _ => []) (isort (fun a b => cmpInt (-a.hybrid) (-b.hybrid))) (fun l => l) true
+        (searchParallel (· + ·) s1 true [leaf]) ⟨[], [], 0, 0⟩) = some [(2, some (-1)), (1, some (-2))]) := by
+  refine ⟨?_, ?_⟩
+  · intro s1; rw [C06_merge_single]; simp
+  · intro s1; rw [C06_merge_single]; decide
 
 /-- back-fill: the ranked results first, in their order; then exactly the remaining ids of the id
 set, ascending; every id of the set once. -/
@@ -173,51 +177,59 @@ theorem C06_backfill {S : Type} (r : SubResult S) (hn : (r.res.map (·.id)).Nodu
 
 /-! ### select -/
 
-/-- `C06_select`.  Provided no selected path runs into a value of the stored document that is
-neither a map nor absent (`queryVal … ≠ error`), the select loop succeeds and
+/-- `C06_select`.  For every stored document and every select list without `"*"` the select loop
+succeeds and
 
 * every selected path that is present in the stored document comes back with exactly the stored value
   (whatever else was selected before or after it: colliding nested / parent paths included);
 * nothing else comes back: every path present in the answer is present in the stored document, and
-  every value that is not a rebuilt intermediate map is the stored value at that path. -/
-theorem C06_select (d : Doc) (ps : List (List String)) (hstar : ["*"] ∉ ps)
-    (hok : ∀ p ∈ ps, p ≠ [] ∧ queryVal (.map d) p ≠ .error ()) :
-    ∃ m, selectDoc d ps [] = .ok m ∧
-      (∀ p ∈ ps, ∀ u, queryVal (.map d) p = .ok (some u) → access m p = some u) ∧
-      (∀ π x, π ≠ [] → access m π = some x → ∃ y, queryVal (.map d) π = .ok (some y) ∧ (isMap x ∨ x = y)) := by
-  obtain ⟨m, hm, hinv⟩ := selectDoc_spec d ps [] [] ⟨faithful_nil _, by simp⟩ hstar hok
-  refine ⟨m, hm, ?_, hinv.faithful⟩
-  intro p hp u hu
-  exact hinv.selected p (by simp [hp]) u hu
+  every value that is not a rebuilt intermediate map is the stored value at that path.
 
-/-- `"*"` returns the document: when the star is reached (the paths before it being resolvable),
-the answer has exactly the top-level fields of the stored document with their stored values; what
-follows the star is ignored. -/
-theorem C06_select_star (d : Doc) (pre post : List (List String)) (hd : (d.map (·.1)).Nodup)
-    (hstar : ["*"] ∉ pre) (hok : ∀ p ∈ pre, p ≠ [] ∧ queryVal (.map d) p ≠ .error ()) :
-    ∃ m, selectDoc d (pre ++ ["*"] :: post) [] = .ok m ∧ ∀ k, lookup m k = lookup d k := by
-  obtain ⟨m0, hm0, hinv⟩ := selectDoc_spec d pre [] [] ⟨faithful_nil _, by simp⟩ hstar hok
-  have hgen : ∀ (ps : List (List String)) (acc : Doc) (m0 : Doc), selectDoc d ps acc = .ok m0 → ["*"] ∉ ps →
+A selected path that is absent — or that runs into a scalar, nil or array of THIS document — is simply
+not part of the answer (no hypothesis on the document any more). -/
+theorem C06_select (d : Doc) (ps : List (List String)) (hstar : ["*"] ∉ ps) (hne : ∀ p ∈ ps, p ≠ []) :
+    ∃ m, selectDoc d ps [] = .ok m ∧
+      (∀ p ∈ ps, ∀ u, access d p = some u → access m p = some u) ∧
+      (∀ π x, π ≠ [] → access m π = some x → ∃ y, access d π = some y ∧ (isMap x ∨ x = y)) := by
+  obtain ⟨m, hm, hinv⟩ := selectDoc_spec d ps [] [] ⟨faithful_nil _, by simp⟩ hstar hne
+  refine ⟨m, hm, ?_, ?_⟩
+  · intro p hp u hu
+    exact hinv.selected p (by simp [hp]) u (access_ok_query hu)
+  · intro π x hπ hx
+    obtain ⟨y, hy, hxy⟩ := hinv.faithful π x hπ hx
+    exact ⟨y, queryVal_ok_access hy, hxy⟩
+
+/-- the select loop with a star somewhere: what precedes the star is selected as above, then the
+whole document is decoded over it; what follows the star is ignored -/
+theorem selectDoc_star (d : Doc) (post : List (List String)) :
+    ∀ (ps : List (List String)) (acc m0 : Doc), selectDoc d ps acc = .ok m0 → ["*"] ∉ ps →
       selectDoc d (ps ++ ["*"] :: post) acc = .ok (overlay m0 d) := by
-    intro ps
-    induction ps with
-    | nil => intro acc m0 h _; simp only [selectDoc, Except.ok.injEq] at h; subst h; simp [selectDoc]
-    | cons p rest ih =>
-      intro acc m0 h hs
-      have hp : p ≠ ["*"] := fun h => hs (by simp [h])
-      have hrs : ["*"] ∉ rest := fun h => hs (List.mem_cons_of_mem _ h)
-      simp only [List.cons_append, selectDoc, hp, if_false] at h ⊢
-      cases hq : queryVal (.map d) p with
-      | error e => simp [hq] at h
-      | ok o =>
-        cases o with
-        | none => simp only [hq] at h ⊢; exact ih acc m0 h hrs
-        | some v =>
-          simp only [hq] at h ⊢
-          cases hsn : setNested acc p v with
-          | error e => simp [hsn] at h
-          | ok acc' => simp only [hsn] at h ⊢; exact ih acc' m0 h hrs
-  refine ⟨overlay m0 d, hgen pre [] m0 hm0 hstar, ?_⟩
+  intro ps
+  induction ps with
+  | nil => intro acc m0 h _; simp only [selectDoc, Except.ok.injEq] at h; subst h; simp [selectDoc]
+  | cons p rest ih =>
+    intro acc m0 h hs
+    have hp : p ≠ ["*"] := fun h => hs (by simp [h])
+    have hrs : ["*"] ∉ rest := fun h => hs (List.mem_cons_of_mem _ h)
+    simp only [List.cons_append, selectDoc, hp, if_false] at h ⊢
+    cases hq : queryVal (.map d) p with
+    | error e => simp only [hq] at h ⊢; exact ih acc m0 h hrs
+    | ok o =>
+      cases o with
+      | none => simp only [hq] at h ⊢; exact ih acc m0 h hrs
+      | some v =>
+        simp only [hq] at h ⊢
+        cases hsn : setNested acc p v with
+        | error e => simp [hsn] at h
+        | ok acc' => simp only [hsn] at h ⊢; exact ih acc' m0 h hrs
+
+/-- `"*"` returns the document: when the star is reached the answer has exactly the top-level fields
+of the stored document with their stored values; what follows the star is ignored. -/
+theorem C06_select_star (d : Doc) (pre post : List (List String)) (hd : (d.map (·.1)).Nodup)
+    (hstar : ["*"] ∉ pre) (hne : ∀ p ∈ pre, p ≠ []) :
+    ∃ m, selectDoc d (pre ++ ["*"] :: post) [] = .ok m ∧ ∀ k, lookup m k = lookup d k := by
+  obtain ⟨m0, hm0, hinv⟩ := selectDoc_spec d pre [] [] ⟨faithful_nil _, by simp⟩ hstar hne
+  refine ⟨overlay m0 d, selectDoc_star d post pre [] m0 hm0 hstar, ?_⟩
   intro k
   rw [lookup_overlay m0 d k hd]
   cases hl : lookup d k with
@@ -231,20 +243,74 @@ theorem C06_select_star (d : Doc) (pre post : List (List String)) (hd : (d.map (
       obtain ⟨y, hy, _⟩ := hinv.faithful [k] x (by simp) hacc
       simp [queryVal, hl] at hy
 
-/-- **the hypothesis of `C06_select` is needed**: one stored point whose `a` is a scalar makes the
-selection of `a.b` fail for the whole search, although another point has `a.b` (DecodedData of no
-point comes back). -/
-theorem C06_select_scalar_witness :
+/-- `C06_select_total`: selection never fails a request.  For every request whose select paths have
+no empty segment list, every stored document yields its data (`shape` succeeds), hence
+`Shard.SearchPoints` does not return a select error whatever the other returned points store. -/
+theorem C06_select_total {S : Type} (rq : Request) (hne : ∀ p ∈ rq.select, p ≠ []) :
+    (∀ d : Doc, ∃ m, shape rq d = .ok m) ∧
+    (∀ (docOf : Id → Doc) (rankSorter : List (Res S) → List (Res S)) (sorter : List (Row S) → List (Row S))
+       (repaired : Bool) (r : SubResult S),
+       (match searchPoints docOf rankSorter sorter repaired r rq with | .selectError => False | _ => True)) := by
+  have hshape : ∀ d : Doc, ∃ m, shape rq d = .ok m := by
+    intro d
+    unfold shape
+    split
+    · split
+      · exact ⟨[], rfl⟩
+      · -- split the list at the first star
+        have hsplit : ∀ ps : List (List String), (∀ p ∈ ps, p ≠ []) → ∃ m, selectDoc d ps [] = .ok m := by
+          intro ps hps
+          by_cases hst : ["*"] ∈ ps
+          · obtain ⟨pre, post, hpp, hpre⟩ : ∃ pre post, ps = pre ++ ["*"] :: post ∧ ["*"] ∉ pre := by
+              clear hps
+              induction ps with
+              | nil => simp at hst
+              | cons q rest ih =>
+                by_cases hq : q = ["*"]
+                · exact ⟨[], rest, by simp [hq], by simp⟩
+                · have : ["*"] ∈ rest := by
+                    rcases List.mem_cons.mp hst with h | h
+                    · exact absurd h.symm hq
+                    · exact h
+                  obtain ⟨pre, post, h1, h2⟩ := ih this
+                  exact ⟨q :: pre, post, by simp [h1], by
+                    intro hm; rcases List.mem_cons.mp hm with h | h
+                    · exact hq h.symm
+                    · exact h2 h⟩
+            subst hpp
+            obtain ⟨m0, hm0, _⟩ := selectDoc_spec d pre [] [] ⟨faithful_nil _, by simp⟩ hpre
+              (fun p hp => hps p (by simp [hp]))
+            exact ⟨_, selectDoc_star d post pre [] m0 hm0 hpre⟩
+          · obtain ⟨m, hm, _⟩ := selectDoc_spec d ps [] [] ⟨faithful_nil _, by simp⟩ hst hps
+            exact ⟨m, hm⟩
+        exact hsplit rq.select hne
+    · split
+      · exact ⟨[], rfl⟩
+      · exact ⟨d, rfl⟩
+  refine ⟨hshape, ?_⟩
+  intro docOf rankSorter sorter repaired r
+  unfold searchPoints fullRows
+  obtain ⟨rows, hrows, _⟩ := mapExcept_ok
+    (fun (e : Entry S) => (shape rq (docOf e.id)).map (fun d => (⟨e.id, e.hybrid, d⟩ : Row S)))
+    (backfill ⟨r.set, rankSorter r.res⟩)
+    (fun e _ => by obtain ⟨m, hm⟩ := hshape (docOf e.id); exact ⟨⟨e.id, e.hybrid, m⟩, by rw [hm]; rfl⟩)
+  rw [hrows]
+  simp only
+  generalize (if repaired = true then _ else _) = pg
+  cases pg <;> simp
+
+/-- the witness of the former finding `select-nested-through-scalar`: one point has `a.b`, another
+stores a scalar under `a`.  Selecting `a.b` now answers both: the first with its value, the second
+without the path. -/
+theorem C06_select_scalar :
     let d1 : Doc := [("a", .map [("b", .str [0x78])])]
     let d2 : Doc := [("a", .str [0x73])]
     let rq : Request := { select := [["a", "b"]], sort := [], off := 0, lim := 10 }
-    queryVal (.map d1) ["a", "b"] = .ok (some (.str [0x78])) ∧
-    (∃ m, shape rq d1 = .ok m ∧ access m ["a", "b"] = some (.str [0x78])) ∧
-    (match mapExcept (shape rq) [d1, d2] with | .error _ => True | .ok _ => False) := by
-  refine ⟨by simp [queryVal, lookup], ⟨[("a", .map [("b", .str [0x78])])], ?_, ?_⟩, ?_⟩
-  · simp [shape, needDecode, selectDoc, queryVal, lookup, setNested, put]
-  · simp [access, accessVal, lookup]
+    queryVal (.map d2) ["a", "b"] = .error () ∧
+    (∃ m1, mapExcept (shape rq) [d1, d2] = .ok [m1, []] ∧ access m1 ["a", "b"] = some (.str [0x78])) := by
+  refine ⟨by simp [queryVal, lookup], ⟨[("a", .map [("b", .str [0x78])])], ?_, ?_⟩⟩
   · simp [mapExcept, shape, needDecode, selectDoc, queryVal, lookup, setNested, put]
+  · simp [access, accessVal, lookup]
 
 /-! ### comparator, sorting -/
 
@@ -301,8 +367,8 @@ theorem C06_sort_ties (opts : List SortOpt) (a b : Doc) :
 /-- within one `reflect.Kind` the comparator is the order of the values: integers by value, floats
 by `cmp.Compare` (IEEE order, NaN first), strings byte-wise -/
 theorem C06_cmp_same_kind :
-    (∀ w x y, cmpAny (.int w x) (.int w y) = cmpInt x y) ∧
-    (∀ w x y, cmpAny (.uint w x) (.uint w y) = cmpInt x y) ∧
+    (∀ w x y, cmpAny (.int w x) (.int w y) = cmpInt x.toInt y.toInt) ∧
+    (∀ w x y, cmpAny (.uint w x) (.uint w y) = cmpInt x.toNat y.toNat) ∧
     (∀ x y, cmpAny (.f64 x) (.f64 y) = cmpF64 x y) ∧
     (∀ x y, cmpAny (.f32 x) (.f32 y) = cmpF32 x y) ∧
     (∀ x y, cmpAny (.str x) (.str y) = cmpStr x y) := by
@@ -322,15 +388,61 @@ theorem C06_cmp_same_kind :
   · intro x y; simp [cmpAny, kindOf, asF32]
   · intro x y; simp [cmpAny, kindOf, asStr]
 
-/-- **but numbers of different encoded width are ordered by width, not by value**: msgpack decodes
-`5` (positive fixint) to `int8` and `-200` to `int16`, and `CompareAny` puts every `int8` before
-every `int16`; likewise `300` (`uint16`) after `2^40` (`int64`), and the float `1.5` after every
-integer. -/
-theorem C06_cmp_cross_kind_witness :
-    cmpAny (.int 8 5) (.int 16 (-200)) = -1 ∧
-    cmpAny (.int 64 (2 ^ 40)) (.uint 16 300) = -1 ∧
-    cmpAny (.uint 8 200) (.f64 0x3ff8000000000000#64) = -1 := by
-  refine ⟨by decide, by decide, by decide⟩
+/-- `C06_cmp_numeric`: on numbers `CompareAny` IS the numeric order, whatever the two kinds — any
+integer width, signed or unsigned, float32 or float64.  `numOrd` is the exact value scaled by `2^1074`
+(an integer for every finite float64; `±Inf` beyond every finite value; NaN below everything, as
+`cmp.Compare` has it), so nothing is rounded: `2^53 + 1` (int64) is greater than `2^53` (float64),
+`2^63 − 1` (int64) is less than `2^63` (uint64 or float64), `−1` is less than every uint64. -/
+theorem C06_cmp_numeric (a b : Val) (x y : Num) (ha : numOf a = some x) (hb : numOf b = some y) :
+    cmpAny a b = cmpInt (numOrd x) (numOrd y) := cmpAny_num ha hb
+
+/-- integers among themselves: by value across all widths and both signednesses -/
+theorem C06_cmp_integers (w w' : Nat) (x y : BitVec 64) :
+    cmpAny (.int w x) (.int w' y) = cmpInt x.toInt y.toInt ∧
+    cmpAny (.int w x) (.uint w' y) = cmpInt x.toInt y.toNat ∧
+    cmpAny (.uint w x) (.int w' y) = cmpInt x.toNat y.toInt ∧
+    cmpAny (.uint w x) (.uint w' y) = cmpInt x.toNat y.toNat := by
+  refine ⟨?_, ?_, ?_, ?_⟩ <;> rw [C06_cmp_numeric _ _ _ _ rfl rfl] <;> exact cmpInt_mul _ _
+
+/-- the float order used above agrees with the IEEE order on bit patterns of `Base/Float.lean`
+(sign-magnitude keys): the exact value is strictly increasing in the key -/
+theorem C06_float_value_order :
+    (∀ x y : BitVec 64, F64.key x < F64.key y ↔ scaled64 x < scaled64 y) ∧
+    (∀ x y : BitVec 32, F32.key x < F32.key y ↔ scaled32 x < scaled32 y) :=
+  ⟨key64_lt_iff, key32_lt_iff⟩
+
+set_option maxRecDepth 4096 in
+/-- the witnesses of the former finding `sort-numeric-cross-kind`, now in numeric order; and values
+that a comparison through float64 would merge -/
+theorem C06_cmp_cross_kind :
+    cmpAny (.int 8 5) (.int 16 (-200)) = 1 ∧
+    cmpAny (.int 64 (2 ^ 40)) (.uint 16 300) = 1 ∧
+    cmpAny (.uint 8 200) (.f64 0x3ff8000000000000#64) = 1 ∧                 -- 200 > 1.5
+    cmpAny (.int 64 (2 ^ 53 + 1)) (.f64 0x4340000000000000#64) = 1 ∧        -- 2^53 + 1 > 2^53 (float64)
+    cmpAny (.int 64 (2 ^ 63 - 1)) (.f64 0x43e0000000000000#64) = -1 ∧       -- MaxInt64 < 2^63 (float64)
+    cmpAny (.uint 64 (2 ^ 64 - 1)) (.int 8 (-1)) = 1 ∧                      -- MaxUint64 > −1
+    cmpAny (.int 64 1700000000000000001) (.int 64 1700000000000000002) = -1 ∧
+    cmpAny (.f32 0x3f000000#32) (.f64 0x3fe0000000000000#64) = 0 ∧          -- 0.5 (float32) = 0.5 (float64)
+    cmpAny (.int 8 0) (.f64 0x8000000000000000#64) = 0 := by                -- 0 = −0.0
+  refine ⟨by decide, by decide, by decide, by decide, by decide, by decide, by decide, by decide, by decide⟩
+
+/-- hence explicit sort keys order numbers by value: in any list ordered by the comparator, two rows
+that both carry a number under the first key stand in numeric order (reversed for `descending`) -/
+theorem C06_sort_numeric (o : SortOpt) (rest : List SortOpt) (l : List Doc)
+    (h : l.Pairwise (fun a b => sortCmp (o :: rest) a b ≤ 0)) :
+    l.Pairwise (fun a b => ∀ x y nx ny, access a o.path = some x → access b o.path = some y →
+      numOf x = some nx → numOf y = some ny →
+      if o.desc then numOrd ny ≤ numOrd nx else numOrd nx ≤ numOrd ny) := by
+  apply (C06_missing_last o rest l h).imp
+  intro a b hab x y nx ny hx hy hnx hny
+  have := hab.2 x y hx hy
+  cases hd : o.desc
+  · simp only [hd, Bool.false_eq_true, if_false] at this ⊢
+    rw [C06_cmp_numeric x y nx ny hnx hny] at this
+    exact (cmpInt_le _ _).mp this
+  · simp only [hd, if_true] at this ⊢
+    rw [C06_cmp_numeric y x ny nx hny hnx] at this
+    exact (cmpInt_le _ _).mp this
 
 /-! ### offset / limit -/
 
@@ -375,6 +487,118 @@ theorem C06_page_repaired {α : Type} (l : List α) (off lim : Nat)
       = ((min (off + lim') l.length : Nat) : Int) := by omega
   rw [h2, wrap64_id (by omega) (by omega), slice_eq l _ _ (by omega) (by omega), ← take_drop_min]
 
+/-! ### the whole answer -/
+
+/-- the page an answer consists of -/
+def outcomePage {S : Type} : Outcome S → Option (List (Row S))
+  | .rows p => some p
+  | _ => none
+
+/-- `C06_tree`.  For every query tree — any depth, any number of sub-queries per composite (none and
+exactly one included), any hybrid scores — whose leaves are well formed, `indexManager.Search` returns:
+a well-formed result (ranked ids in the id set, each once); the documented id set (`inSetB`: union for
+`_or`, intersection for `_and`); and for every point the documented hybrid score (`hybridSpec`: the
+nested sum, in sub-query order, of the contributions of the sub-queries that rank it; not ranked where
+no sub-query ranks it or the point is outside the composite's set). -/
+theorem C06_tree {S : Type} (add : S → S → S) (le : S → S → Prop) (sorter : List (Res S) → List (Res S))
+    (hperm : ∀ l, (sorter l).Perm l) (hsorted : ∀ l, (sorter l).Pairwise (fun a b => le b.hybrid a.hybrid))
+    (t : QTree S) (h : leavesWF t) :
+    let out := evalTree add sorter t
+    (∀ x ∈ out.res, x.id ∈ out.set) ∧ (out.res.map (·.id)).Nodup ∧
+    (∀ id, id ∈ out.set ↔ inSetB t id = true) ∧
+    (∀ id, hybridOf out.res id = hybridSpec add t id) ∧
+    (∀ x ∈ out.res, hybridSpec add t x.id = some x.hybrid) := by
+  intro out
+  obtain ⟨⟨w1, w2⟩, hset, hhyb⟩ := evalTree_ok add le sorter hperm hsorted t h
+  exact ⟨w1, w2, hset, hhyb, fun x hx => by rw [← hhyb x.id]; exact hybridOf_of_mem w2 hx⟩
+
+/-- `C06_answer`.  The whole answer of `Shard.SearchPoints` before the offset / limit slice, for every
+query tree with well-formed leaves, every select list and every sort list:
+
+* each point of the documented id set exactly once, nothing else;
+* each row carries the documented hybrid score (`none` = matched by filters only) and exactly the
+  selected data of its stored document;
+* without sort keys: ranked rows first, highest hybrid score first, filter-only rows after them;
+  with sort keys: ordered by the multi-key comparator (`C06_missing_last`, `C06_sort_numeric` say what
+  that means). -/
+theorem C06_answer {S : Type} (add : S → S → S) (le : S → S → Prop) (sorter : List (Res S) → List (Res S))
+    (hperm : ∀ l, (sorter l).Perm l) (hsorted : ∀ l, (sorter l).Pairwise (fun a b => le b.hybrid a.hybrid))
+    (rankSorter : List (Res S) → List (Res S))
+    (hrperm : ∀ l, (rankSorter l).Perm l) (hrsorted : ∀ l, (rankSorter l).Pairwise (fun a b => le b.hybrid a.hybrid))
+    (rq : Request) (rowSorter : List (Row S) → List (Row S))
+    (hsperm : ∀ l, (rowSorter l).Perm l)
+    (hssorted : ∀ l, (rowSorter l).Pairwise (fun a b => sortCmp rq.sort a.data b.data ≤ 0))
+    (docOf : Id → Doc) (hne : ∀ p ∈ rq.select, p ≠ [])
+    (t : QTree S) (h : leavesWF t) :
+    ∃ rows, fullRows docOf rankSorter rowSorter (evalTree add sorter t) rq = .ok rows ∧
+      (rows.map (·.id)).Nodup ∧ (∀ id, id ∈ rows.map (·.id) ↔ inSetB t id = true) ∧
+      (∀ row ∈ rows, row.hybrid = hybridSpec add t row.id ∧ shape rq (docOf row.id) = .ok row.data) ∧
+      (rq.sort = [] → rows.Pairwise (fun a b => rankRel le a.hybrid b.hybrid)) ∧
+      (rq.sort ≠ [] → rows.Pairwise (fun a b => sortCmp rq.sort a.data b.data ≤ 0)) := by
+  obtain ⟨w1, w2, hset, hhyb, _⟩ := C06_tree add le sorter hperm hsorted t h
+  generalize evalTree add sorter t = o at *
+  have hp := hrperm o.res
+  have hn : ((rankSorter o.res).map (·.id)).Nodup := ((hp.map (·.id)).nodup_iff).mpr w2
+  have hwf : ∀ x ∈ rankSorter o.res, x.id ∈ o.set := fun x hx => w1 x (hp.mem_iff.mp hx)
+  obtain ⟨unranked, hB, _, hun, hBmem, hBnd⟩ := C06_backfill (⟨o.set, rankSorter o.res⟩ : SubResult S) hn hwf
+  generalize hBdef : backfill (⟨o.set, rankSorter o.res⟩ : SubResult S) = B at *
+  -- every back-filled entry carries the documented hybrid score
+  have hBh : ∀ e ∈ B, e.hybrid = hybridSpec add t e.id := by
+    intro e he
+    rw [hB] at he
+    rcases List.mem_append.mp he with he | he
+    · obtain ⟨x, hx, rfl⟩ := List.mem_map.mp he
+      show some x.hybrid = hybridSpec add t x.id
+      rw [← hhyb x.id, ← hybridOf_perm hp w2 x.id, hybridOf_of_mem hn hx]
+    · obtain ⟨id, hid, rfl⟩ := List.mem_map.mp he
+      show none = hybridSpec add t id
+      have hnot : id ∉ (rankSorter o.res).map (·.id) := ((hun id).mp hid).2
+      rw [← hhyb id, ← hybridOf_perm hp w2 id, (hybridOf_none_of_not_mem hnot).1]
+  obtain ⟨hshape, _⟩ := C06_select_total (S := S) rq hne
+  obtain ⟨rows0, hrows0, _⟩ := mapExcept_ok
+    (fun (e : Entry S) => (shape rq (docOf e.id)).map (fun d => (⟨e.id, e.hybrid, d⟩ : Row S))) B
+    (fun e _ => by obtain ⟨m, hm⟩ := hshape (docOf e.id); exact ⟨⟨e.id, e.hybrid, m⟩, by show Except.map _ _ = _; rw [hm]; rfl⟩)
+  have hids : rows0.map (·.id) = B.map (·.id) :=
+    mapExcept_map _ (·.id) (·.id) (fun e row he => (row_of_entry docOf rq e row he).1) B rows0 hrows0
+  have hrow0 : ∀ row ∈ rows0, row.hybrid = hybridSpec add t row.id ∧ shape rq (docOf row.id) = .ok row.data := by
+    intro row hr
+    obtain ⟨e, he, hfe⟩ := mapExcept_mem _ B rows0 hrows0 row hr
+    obtain ⟨h1, h2, h3⟩ := row_of_entry docOf rq e row hfe
+    exact ⟨by rw [h2, h1]; exact hBh e he, by rw [h1]; exact h3⟩
+  have hfull : fullRows docOf rankSorter rowSorter o rq = .ok (if rq.sort.isEmpty then rows0 else rowSorter rows0) := by
+    unfold fullRows
+    rw [hBdef, hrows0]
+  by_cases hs : rq.sort = []
+  · refine ⟨rows0, by rw [hfull]; simp [hs], ?_, ?_, hrow0, ?_, fun h => absurd hs h⟩
+    · rw [hids]; exact hBnd
+    · intro id; rw [hids, hBmem id]; exact hset id
+    · intro _
+      exact fullRows_rank_pairwise le docOf rankSorter hrsorted rowSorter o rq hs rows0 (by rw [hfull]; simp [hs])
+  · have hse : rq.sort.isEmpty = false := by
+      cases hq : rq.sort with
+      | nil => exact absurd hq hs
+      | cons a l => rfl
+    have hperm' := hsperm rows0
+    refine ⟨rowSorter rows0, by rw [hfull]; simp [hse], ?_, ?_, ?_, fun h => absurd h hs, fun _ => hssorted rows0⟩
+    · rw [((hperm'.map (·.id)).nodup_iff), hids]; exact hBnd
+    · intro id; rw [((hperm'.map (·.id)).mem_iff), hids, hBmem id]; exact hset id
+    · intro row hr; exact hrow0 row (hperm'.mem_iff.mp hr)
+
+/-- and the request returns the page `[offset, offset + limit)` of that answer (all of it from `offset`
+on when `limit = 0`) — repaired slice expression, no overflow hypothesis -/
+theorem C06_search_page {S : Type} (docOf : Id → Doc) (rankSorter : List (Res S) → List (Res S))
+    (rowSorter : List (Row S) → List (Row S)) (r : SubResult S) (rq : Request) (rows : List (Row S))
+    (hfull : fullRows docOf rankSorter rowSorter r rq = .ok rows)
+    (off lim : Nat) (ho : rq.off = off) (hl : rq.lim = lim)
+    (hoff : off < 2 ^ 63) (hlim : lim < 2 ^ 63) (hlen : rows.length < 2 ^ 63) :
+    outcomePage (searchPoints docOf rankSorter rowSorter true r rq)
+      = some ((rows.drop off).take (if lim = 0 then rows.length else lim)) := by
+  unfold searchPoints
+  rw [hfull]
+  simp only [if_true, ho, hl, C06_page_repaired rows off lim hoff hlim hlen]
+  rfl
+
+
 /-! ### non-vacuity -/
 
 /-- three sub-queries, overlapping results, a negative and a zero contribution, `_and` dropping a result -/
@@ -383,7 +607,7 @@ def exSubs : List (SubResult Int) :=
 
 def exSortRes (l : List (Res Int)) : List (Res Int) := isort (fun a b => cmpInt (-a.hybrid) (-b.hybrid)) l
 
-example : exSubs.length ≠ 1 ∧ ∀ s ∈ exSubs, ∀ r ∈ s.res, r.id ∈ s.set := by decide
+example : exSubs.length ≠ 1 ∧ (∀ s ∈ exSubs, ∀ r ∈ s.res, r.id ∈ s.set) ∧ ∀ s ∈ exSubs, (s.res.map (·.id)).Nodup := by decide
 
 /-- every hypothesis of `C06_merge` at once (the sorter is an insertion sort on `Int` scores) -/
 example : ((searchParallel (· + ·) exSortRes true exSubs).res.map (·.id)).Nodup := by
@@ -405,12 +629,29 @@ example : (backfill (searchParallel (· + ·) exSortRes true exSubs)).map (fun e
 /-- a stored document with a nested map and a scalar, colliding select paths -/
 def exDoc : Doc := [("a", .map [("b", .int 8 1), ("c", .str [0x79])]), ("n", .int 16 300), ("z", .nil)]
 
-example : ["*"] ∉ [["a", "b"], ["a"], ["a", "c"], ["q"], ["n"]] ∧
-    ∀ p ∈ [["a", "b"], ["a"], ["a", "c"], ["q"], ["n"]], p ≠ [] ∧ queryVal (.map exDoc) p ≠ .error () := by
-  refine ⟨by decide, ?_⟩
-  intro p hp
-  simp only [List.mem_cons, List.not_mem_nil, or_false] at hp
-  rcases hp with rfl | rfl | rfl | rfl | rfl <;> simp [queryVal, lookup, exDoc]
+/-- the hypotheses of `C06_select` on a list that also runs into a scalar (`n.x`) and into nil (`z.q`);
+the answer computed: the scalar-crossing paths are simply absent -/
+example : ["*"] ∉ [["a", "b"], ["n", "x"], ["a"], ["z", "q"], ["a", "c"], ["q"], ["n"]] ∧
+    ∀ p ∈ [["a", "b"], ["n", "x"], ["a"], ["z", "q"], ["a", "c"], ["q"], ["n"]], p ≠ [] := by decide
+
+example : (match selectDoc exDoc [["a", "b"], ["n", "x"], ["z", "q"], ["q"], ["n"]] [] with
+    | .ok m => access m ["a", "b"] = some (.int 8 1) ∧ access m ["n"] = some (.int 16 300) ∧ access m ["n", "x"] = none ∧
+        lookup m "z" = none ∧ m.length = 2
+    | .error _ => False) := by
+  simp [selectDoc, queryVal, lookup, exDoc, setNested, put, access, accessVal]
+
+/-- the hypothesis of `C06_rank_order` is satisfiable together with stability: `C06_rank_sorter_exists`;
+a leaf in its own order with a negative weight, a filter-only point behind it -/
+example : outcomeRows (searchPoints (fun _ => []) (isort (fun a b => cmpInt (-a.hybrid) (-b.hybrid))) (fun l => l) true
+    (⟨[1, 2, 3, 7], [⟨1, -2⟩, ⟨3, -2⟩, ⟨2, -1⟩]⟩ : SubResult Int) ⟨[], [], 0, 0⟩)
+    = some [(2, some (-1)), (1, some (-2)), (3, some (-2)), (7, none)] := by decide
+
+set_option maxRecDepth 8192 in
+/-- the hypothesis of `C06_sort_numeric`: a list in comparator order whose first key holds numbers of
+five different kinds, two of them equal in value -/
+example : [[("n", Val.int 16 (-200))], [("n", .f64 0x3ff8000000000000#64)], [("n", .int 8 5)], [("n", .f32 0x40a00000#32)],
+      [("n", .uint 8 200)], [("n", .int 64 (2 ^ 40))], [("q", .nil)]].Pairwise
+    (fun a b => sortCmp [⟨["n"], false⟩] a b ≤ 0) := by decide
 
 example : (exDoc.map (·.1)).Nodup := by decide
 
@@ -419,5 +660,30 @@ example : [exDoc, [("n", .int 16 400)], [("q", .nil)]].Pairwise
     (fun a b => sortCmp [⟨["n"], false⟩, ⟨["a", "b"], true⟩] a b ≤ 0) := by decide
 
 example : (5 : Nat) + (if (3 : Nat) = 0 then [1, 2, 3, 4, 5, 6, 7].length else 3) < 2 ^ 63 := by decide
+
+/-- a query tree of depth 2: `_and [ _or [ranked, ranked(negative), filter], _or [ranked] (a single
+sub-query), filter ]` with overlapping results -/
+def exTree : QTree Int :=
+  .node false (.cons (.node true (.cons (.leaf ⟨[1, 2, 3], [⟨1, 5⟩, ⟨2, -3⟩, ⟨3, 0⟩]⟩)
+      (.cons (.leaf ⟨[2, 3, 4], [⟨3, -7⟩, ⟨2, 1⟩]⟩) (.cons (.leaf ⟨[9], []⟩) .nil))))
+    (.cons (.node true (.cons (.leaf ⟨[1, 2, 4, 9], [⟨2, -1⟩, ⟨4, 2⟩]⟩) .nil))
+    (.cons (.leaf ⟨[1, 2, 4, 5, 9], []⟩) .nil)))
+
+/-- the hypothesis of `C06_tree` / `C06_answer`, and what they conclude, computed: id set, hybrid
+scores as nested sums `((−3) + 1) + (−1)`, point 1 ranked by the first sub-query only, point 9 by none -/
+example : leavesWF exTree := by simp [exTree, leavesWF, forestWF]
+
+example : (evalTree (· + ·) exSortRes exTree).set = [1, 2, 4, 9] ∧
+    ((evalTree (· + ·) exSortRes exTree).res.map (fun r => (r.id, r.hybrid))) = [(1, 5), (4, 2), (2, -3)] ∧
+    [1, 2, 3, 4, 5, 9].map (inSetB exTree) = [true, true, false, true, false, true] ∧
+    [1, 2, 3, 4, 9].map (hybridSpec (· + ·) exTree) = [some 5, some (-3), none, some 2, none] := by decide
+
+/-- the sorter hypotheses of `C06_answer` are satisfiable: insertion sorts (`C06_rank_sorter_exists`,
+`C06_sort_exists`) -/
+example (opts : List SortOpt) : ∃ rowSorter : List (Row Int) → List (Row Int), (∀ l, (rowSorter l).Perm l) ∧
+    ∀ l, (rowSorter l).Pairwise (fun a b => sortCmp opts a.data b.data ≤ 0) :=
+  ⟨isort (fun a b => sortCmp opts a.data b.data), fun l => isort_perm _ l, fun l =>
+    isort_sorted (c := fun (a b : Row Int) => sortCmp opts a.data b.data)
+      ⟨fun a b => (tpc_sortCmp opts).antisymm _ _, fun a b d => (tpc_sortCmp opts).trans _ _ _⟩ l⟩
 
 end Sema.C06
